@@ -2469,6 +2469,38 @@ theorem specPileup_length (sizes : List Nat) (ivs : List C10.Iv) :
     simp only [List.length_map, List.length_range] at h1
     simp [C10.specPileupChrom, C10.size, List.getD_eq_getElem?_getD, List.getElem?_eq_getElem h1]
 
+/-- **windows around streamed locations = windows around the in-memory locations**: for chromosome-sorted valid
+entries and every chunking, the streamed `get_location('start').get_windows(...)` gives, entry for entry, the
+window of the in-memory call (`C10.windowG` with `C10.flanks`), for `flank=` and for `window_size=` of either
+parity -/
+theorem per_chromosome_windows (sizes : List Nat) (flank : Option Nat) (wsize : Nat) (ivs : List C10.Iv)
+    (cs : List (List C10.Iv)) (hcs : IsChunking ivs cs) (hs : ivs.Pairwise (fun a b => a.c ≤ b.c))
+    (hv : ∀ iv ∈ ivs, iv.valid sizes = true) :
+    streamWindows sizes flank wsize cs =
+      some (ivs.map (fun iv => C10.windowG sizes (C10.flanks flank wsize) iv.c iv.s true)) := by
+  have hb := chromBuffers_spec sizes ivs cs hcs hs hv
+  have hflat : ((List.range sizes.length).map (fun c => ivs.filter (fun iv => iv.c = c))).flatten = ivs := by
+    rw [List.range_eq_range']
+    apply sorted_filter_concat sizes.length 0 ivs hs
+    intro iv hiv
+    have := hv iv hiv
+    simp only [C10.Iv.valid, Bool.and_eq_true, decide_eq_true_eq] at this
+    omega
+  simp only [streamWindows, hb, Option.map_some, Option.some.injEq]
+  rw [← List.map_flatten, hflat]
+
+/-- the two keywords pinned: the window has `2 * flank + 1` resp. `window_size` positions before clipping, and the
+position is its middle (for even sizes the right one of the two middle positions) -/
+theorem flanks_spec (flank : Option Nat) (wsize : Nat) :
+    let fl := C10.flanks flank wsize
+    (∀ k, flank = some k → fl = ((k : Int), (k : Int) + 1)) ∧
+    (flank = none → fl.1 + fl.2 = wsize ∧ fl.1 = ((wsize / 2 : Nat) : Int) ∧ (wsize % 2 = 0 → fl.1 = fl.2) ∧
+      (wsize % 2 = 1 → fl.2 = fl.1 + 1)) := by
+  refine ⟨fun k hk => by subst hk; simp [C10.flanks], fun h => ?_⟩
+  subst h
+  simp only [C10.flanks]
+  refine ⟨by omega, by first | trivial | rfl | omega, fun h => by omega, fun h => by omega⟩
+
 /-- **values under intervals**: per chromosome, slicing that chromosome's streamed pile-up under that
 chromosome's peaks and concatenating in genome order gives, for chromosome-sorted valid peaks, row for
 row the slices of the whole-genome in-memory pile-up under the peaks' global coordinates. -/
